@@ -214,7 +214,9 @@ def synth_samples(ctx, fmt):
         try:
             from props import c10
             lays = [c10.Layout(split=True), c10.Layout(moov_first=False, traks=["co64", "stco"], free=("before-ilst", "top-mid")),
-                    c10.Layout(moov_first=True, udta="none", meta=False, ilst="none"), c10.Layout(nmoof=1, free=("after-ilst",))]
+                    c10.Layout(moov_first=True, udta="none", meta=False, ilst="none"), c10.Layout(nmoof=1, free=("after-ilst",)),
+                    c10.Layout(wide=("moov", "udta", "meta", "table"), traks=["stco", "co64"]),
+                    c10.Layout(moov_first=False, wide=("moov", "udta"), udta="after", meta=False, ilst="none")]
             for i, lay in enumerate(lays):
                 out.append(("synth:mp4-layout-%d" % i, c10.build(lay)[0]))
         except Exception as e:      # the C10 builder is not ours: its absence must not break C02
